@@ -235,9 +235,107 @@ fn empty_fields(cfg: &Cfg, rep: &mut Report) {
     });
 }
 
+/// One query returning a trace: thousands of data elements in one response message unit (counts around the limits of
+/// 8-, 12-, 16- and 17-bit counters), alone or between two short queries. Every element is there, separated by exactly one comma.
+fn long_units(cfg: &Cfg, rep: &mut Report) {
+    if cfg.tiny {
+        return;
+    }
+    run_cases(cfg, "trace", cfg.n(1, 160, 1_600), rep, |rng, ctx| {
+        bump(ctx, 1);
+        let n = match rng.usize(8) {
+            0 => 254 + rng.usize(6),
+            1 => 4093 + rng.usize(6),
+            2 | 3 => 65_533 + rng.usize(6),
+            4 => 131_069 + rng.usize(6),
+            5 => 70_000 + rng.usize(1000),
+            _ => 1000 + rng.usize(3000),
+        };
+        let emit: Vec<Val> = (0..n).map(|i| if i % 7 == 3 { Val::Chr(b"") } else { Val::U8((i % 10) as u8) }).collect();
+        let with_header = rng.chance(1, 4);
+        let scripts = vec![Script { id: 0, omnivore: true, emit: vec![Val::U8(1)], ..Default::default() }, Script { id: 1, omnivore: true, headers: if with_header { vec![b"TRAC"] } else { vec![] }, emit, finish_each: rng.chance(1, 6), ..Default::default() }];
+        let specs = vec![Spec::leaf(b"ONE", false, 0), Spec::leaf(b"TRACe", false, 1)];
+        let built: Built<Dev, Script> = Built::new(&specs, scripts.clone());
+        let (msg, units): (&[u8], Vec<(usize, bool)>) = match rng.usize(3) {
+            0 => (b"TRAC?", vec![(1, true)]),
+            1 => (b"ONE?;TRAC?;ONE?", vec![(0, true), (1, true), (0, true)]),
+            _ => (b"TRACE?;ONE?", vec![(1, true), (0, true)]),
+        };
+        let mut m = msg.to_vec();
+        let ending = *rng.pick(&ENDINGS);
+        render_ending(rng, ending, &mut m);
+        let plan = Plan { msg: m, units, ending };
+        let (want, _, _) = expected_response(&plan, &scripts);
+        ctx.nontrivial(mix(n as u64, hash_bytes(&plan.msg)));
+        let mut dev = Dev::new();
+        let mut c = Context::default();
+        let mut resp: Vec<u8> = Vec::new();
+        let r = built.root().run(&plan.msg, &mut dev, &mut c, &mut resp);
+        ctx.count(&format!("trace.elements.{}", if n < 300 { "~2^8" } else if n < 4000 { "1000-4000" } else if n < 5000 { "~2^12" } else if n < 66_000 { "~2^16" } else if n < 80_000 { "70000-71000" } else { "~2^17" }));
+        match r {
+            Ok(()) if resp == want => ctx.add("response-data.decoded", n as u64),
+            other => {
+                let first = resp.iter().zip(want.iter()).position(|(a, b)| a != b).unwrap_or(resp.len().min(want.len()));
+                ctx.violation("C10:trace:long-unit-framed-differently", jobj(&[("message", jbytes(&plan.msg)), ("elements", n.to_string()), ("result", jstr(&format!("{:?}", other.map_err(|e| e.get_code())))), ("expected_len", want.len().to_string()), ("observed_len", resp.len().to_string()), ("first_difference_at", first.to_string()), ("observed_around", jbytes(&resp[first.saturating_sub(12)..(first + 12).min(resp.len())]))]))
+            }
+        }
+    });
+}
+
+/// Responses of a megabyte and more into the growable buffer (a screen dump, a waveform as a block; several such units in one
+/// message): the growable buffer is the reference a fixed one is compared with, so it takes whatever the handlers send.
+pub fn large_responses(cfg: &Cfg, rep: &mut Report, pfx: &'static str) {
+    if cfg.tiny {
+        return;
+    }
+    run_cases(cfg, "large-responses", cfg.n(1, 24, 240), rep, move |rng, ctx| {
+        bump(ctx, 1);
+        static PAYLOAD: std::sync::OnceLock<&'static [u8]> = std::sync::OnceLock::new();
+        let pay: &'static [u8] = PAYLOAD.get_or_init(|| Box::leak((0..6_000_000usize).map(|i| (i % 251) as u8).collect::<Vec<u8>>().into_boxed_slice()));
+        let n = match rng.usize(6) {
+            0 => (1 << 20) - 12 + rng.usize(24),
+            1 => 1_100_000 + rng.usize(1000),
+            2 => (1 << 21) - 12 + rng.usize(24),
+            3 => (1 << 22) - 12 + rng.usize(24),
+            4 => 999_990 + rng.usize(20),
+            _ => 300_000 + rng.usize(5_000_000),
+        };
+        let k = 1 + rng.usize(3);
+        let scripts = vec![Script { id: 0, omnivore: true, emit: vec![Val::Arb(&pay[..n])], ..Default::default() }, Script { id: 1, omnivore: true, emit: vec![Val::Arb(&pay[..n / 3]), Val::U8(7)], ..Default::default() }];
+        let specs = vec![Spec::leaf(b"DUMP", false, 0), Spec::leaf(b"PART", false, 1)];
+        let built: Built<Dev, Script> = Built::new(&specs, scripts.clone());
+        let mut msg: Vec<u8> = Vec::new();
+        let mut units = vec![];
+        for i in 0..k {
+            if i > 0 {
+                msg.push(b';');
+            }
+            let h = if i == 0 || rng.bool() { 0 } else { 1 };
+            msg.extend_from_slice(if h == 0 { b"DUMP?" } else { b"PART?" });
+            units.push((h, true));
+        }
+        let ending = *rng.pick(&ENDINGS);
+        render_ending(rng, ending, &mut msg);
+        let plan = Plan { msg, units, ending };
+        let (want, _, _) = expected_response(&plan, &scripts);
+        ctx.nontrivial(mix(n as u64, hash_bytes(&plan.msg)));
+        ctx.count(&format!("large-responses.total-bytes.{}", if want.len() < (1 << 20) { "<1MiB" } else if want.len() < (1 << 22) { "1-4MiB" } else { ">=4MiB" }));
+        let mut dev = Dev::new();
+        let mut c = Context::default();
+        let mut resp: Vec<u8> = Vec::new();
+        let r = built.root().run(&plan.msg, &mut dev, &mut c, &mut resp);
+        if r.is_err() || resp != want {
+            let first = resp.iter().zip(want.iter()).position(|(a, b)| a != b).unwrap_or(resp.len().min(want.len()));
+            ctx.violation(&format!("{}:large-response:growable-buffer-fails-or-differs", pfx), jobj(&[("message", jbytes(&plan.msg)), ("block_bytes", n.to_string()), ("result", jstr(&format!("{:?}", r.map_err(|e| e.get_code())))), ("expected_len", want.len().to_string()), ("observed_len", resp.len().to_string()), ("first_difference_at", first.to_string())]));
+        }
+    });
+}
+
 pub fn run(cfg: &Cfg, rep: &mut Report) {
+    large_responses(cfg, rep, "C10");
     unformattable_values(cfg, rep);
     empty_fields(cfg, rep);
+    long_units(cfg, rep);
     let ntrees = cfg.n(6, 60_000, 1_200_000);
     let nmsg = cfg.n(8, 100, 250) as usize;
     run_cases(cfg, "framing", ntrees, rep, |rng, ctx| {
